@@ -39,6 +39,11 @@ TWO_MODULE = [
     {"m": {"R": [], "A": ["R"], "B": ["A"]}, "m2": {"A": ["B"], "B": ["A"], "C": ["B"]}, "decl": ["m.R"]},
     {"m": {"R": [], "A": ["R"], "L": ["A"], "Rr": ["A"]}, "m2": {"A": ["L", "Rr"], "D": ["A"]}, "decl": ["m.R", "m2.A"]},
     {"m": {"P": [], "Q": []}, "m2": {"P": ["Q"], "Z": ["P"]}, "decl": ["m.P", "m.Q"]},
+    # three modules: m2 imports m, then m1 -- a name both provide denotes the class of the LATER import, for the super-class lists of m2 as for any look-up
+    {"m": {"Item": [], "Old": ["Item"]}, "m1": {"Item": [], "New": ["Item"]}, "m2": {"View": ["Item"], "Sub": ["View"]}, "decl": ["m1.Item"]},
+    {"m": {"Item": [], "Old": ["Item"]}, "m1": {"Item": [], "New": ["Item"]}, "m2": {"View": ["Item"], "Sub": ["View"]}, "decl": ["m.Item"]},
+    {"m": {"Base": [], "Panel": ["Base"]}, "m1": {"Panel": [], "Extra": ["Panel"]}, "m2": {"Dash": ["Panel"], "Top": ["Dash", "Base"]}, "decl": ["m.Base", "m1.Panel"]},
+    {"m": {"A": [], "B": ["A"]}, "m1": {"A": [], "B": ["A"]}, "m2": {"C": ["B"], "D": ["C", "A"]}, "decl": ["m.A"]},
 ]
 
 
@@ -46,10 +51,11 @@ def two_module_family(chk):
     recs = []
     for n, g in enumerate(TWO_MODULE):
         supers = {}
-        for mod in ("m", "m2"):
-            for c, ss in g[mod].items():
-                # resolution: own module first, then (for m2) the imported module
-                supers["%s.%s" % (mod, c)] = [{"n": ("%s.%s" % (mod, x)) if x in g[mod] else ("m.%s" % x), "pub": True} for x in ss]
+        for mod in ("m", "m1", "m2"):
+            for c, ss in g.get(mod, {}).items():
+                # resolution: own module first, then (for m2) the imported modules, the later import first
+                where = lambda x: mod if x in g[mod] else ("m1" if mod == "m2" and x in g.get("m1", {}) else "m")
+                supers["%s.%s" % (mod, c)] = [{"n": "%s.%s" % (where(x), x), "pub": True} for x in ss]
         recs.append({"id": n, "supers": supers, "decl": g["decl"]})
     path = os.path.join(chk.work, "twomod.ndjson")
     from vlib import write_ndjson
@@ -59,7 +65,7 @@ def two_module_family(chk):
     chk.add_tlc(t)
     exp = {e["id"]: e for e in t.printed("TYPEEXPECT")}
     reqs = []
-    hname = lambda node: ("m2:" + node[3:]) if node.startswith("m2.") else node[2:]
+    hname = lambda node: ("m2:" + node[3:]) if node.startswith("m2.") else ("m1:" + node[3:]) if node.startswith("m1.") else node[2:]
     for n, g in enumerate(TWO_MODULE):
         qs, meta = [], []
         for d in exp[n]["derived"]:
@@ -72,6 +78,8 @@ def two_module_family(chk):
             meta.append(("prop", o))
         reqs.append({"id": n, "classes": [meta_class(c, [{"n": x, "pub": True} for x in ss], "m.%s" % c in g["decl"]) for c, ss in g["m"].items()],
                      "classes2": [meta_class(c, [{"n": x, "pub": True} for x in ss], "m2.%s" % c in g["decl"]) for c, ss in g["m2"].items()], "queries": qs, "_meta": meta})
+        if "m1" in g:
+            reqs[-1]["classes1"] = [meta_class(c, [{"n": x, "pub": True} for x in ss], "m1.%s" % c in g["decl"]) for c, ss in g["m1"].items()]
     out = run_batch([VH, "typemap"], [{k: v for k, v in q.items() if k != "_meta"} for q in reqs], procs=1, chunk=100)
     for q in reqs:
         o = out[q["id"]]
